@@ -66,7 +66,6 @@ Lemma full_sync_stamps : forall sn cx so pl, finish_sync sn cx so = Ok pl ->
   exists st c, pl_status pl = Some st /\ get_cond (rs_conds st) CT_LastFullSync = Some c /\ c_update c = sn_now sn.
 Proof.
   intros sn cx so pl H. unfold finish_sync in H.
-  match type of H with (if ?c then _ else _) = _ => destruct c; [discriminate|] end.
   match type of H with (if ?c then _ else _) = _ => destruct c; [|discriminate] end.
   inversion H; subst pl; clear H. cbn [pl_status].
   match goal with |- context [with_conds ?s (update_cond ?cs ?now CT_LastFullSync CTrue ?r ?m true true)] =>
